@@ -36,7 +36,11 @@ def hx0(b):
 
 def _build(ctx, sub):
     exe, err = vlib.build_c("drv_http_asan", "drv_http.c", SRC, extra_sources=["wrap_http.c"], wraps=WRAPS,
-                            asan=True, per_file_flags={"http/http.c": ["-fno-sanitize=nonnull-attribute"]})
+                            asan=True,
+                            # -fno-builtin: every memcmp/memcpy/str* call of http.c goes through ASan's interceptors,
+                            # which check the whole range (an inlined 4-byte compare straddling the end of an
+                            # allocation escapes the inline shadow check)
+                            per_file_flags={"http/http.c": ["-fno-sanitize=nonnull-attribute", "-fno-builtin"]})
     if not exe:
         ctx.fail(sub, "build", "", "C driver does not build: " + (err or "")[-1500:])
         return None, None
@@ -195,7 +199,8 @@ def seg_choice(ctx, r, stream, tag):
         return "r1"
     if k == 4:
         ctx.count(tag + ".seg.fixed")
-        return "r" + str(r.choice([2, 3, 7, 64, 255, 256, 257, 4095, 4096, 4097]))
+        # (small segments of a long stream cost the model O(n^2): keep them for short streams)
+        return "r" + str(r.choice([2, 3, 7, 64, 255, 256, 257, 4095, 4096, 4097] if n <= 6000 else [4095, 4096, 4097, 10000]))
     if k <= 6:
         cuts = delimiter_cuts(stream)
         if cuts:
@@ -509,7 +514,7 @@ def check_common(ctx, sub, cases, exe, mexe, expect_cb=None, expect_req=None):
                 problems.append("%d callbacks for a finished request" % p["cbs"])
             if p["end"] == "cancelled" and p["cbs"] != 0:
                 problems.append("callback made for a cancelled request")
-            if p["end"] in ("error", "stuck"):
+            if p["end"] not in ("done", "cancelled"):
                 problems.append("request ended with " + p["end"])
             for cb in p["cb"]:
                 if cb is None:
@@ -872,7 +877,7 @@ def check_http_allocfail(ctx):
                     problems.append("http_request returned NULL but something was sent or called back")
             if p["end"] == "stuck":
                 problems.append("request neither finished nor failed")
-            if p["end"] == "error" and p["cbs"] != 0:
+            if p["end"] in ("error", "error-cancelled") and p["cbs"] != 0:
                 problems.append("callback made although the event loop reported the failure")
             # the first allocations are those of http_request2 itself (cookie, request head, connect cookie ...):
             # refusing one of them must be reported by a NULL return
